@@ -243,6 +243,8 @@ where
 }
 
 pub fn exec(op: &str, a: &[&str]) -> Option<String> {
+    // `tzc02.iter` is the execution of `tz.iter` (C02 judges the same stream by its own clauses)
+    let op = if op == "tzc02.iter" { "tz.iter" } else { op };
     match (op, a.len()) {
         ("tz.naive", 2) => {
             let tz: Tz = a[0].parse().ok()?;
